@@ -737,3 +737,40 @@ func isAnchor(fn *ssa.Function) bool {
 	_, ok := Current.Anchors[key]
 	return ok
 }
+
+// ReturnedValues: when v is the result (or a component of the result) of a call to a
+// helper of the repository, the values that helper can return there (nil constants
+// excluded); otherwise v itself.
+func ReturnedValues(v ssa.Value) []ssa.Value {
+	v = Strip(v)
+	var cl *ssa.Call
+	idx := 0
+	switch x := v.(type) {
+	case *ssa.Call:
+		cl = x
+	case *ssa.Extract:
+		c, ok := x.Tuple.(*ssa.Call)
+		if !ok {
+			return []ssa.Value{v}
+		}
+		cl, idx = c, x.Index
+	default:
+		return []ssa.Value{v}
+	}
+	cal := cl.Call.StaticCallee()
+	if cal == nil || !helperOK(cal) {
+		return []ssa.Value{v}
+	}
+	var out []ssa.Value
+	Instrs(cal, func(in ssa.Instruction) {
+		if r, ok := in.(*ssa.Return); ok && idx < len(r.Results) && in.Block() != cal.Recover {
+			if !IsNilConst(r.Results[idx]) {
+				out = append(out, r.Results[idx])
+			}
+		}
+	})
+	if len(out) == 0 {
+		return []ssa.Value{v}
+	}
+	return out
+}
